@@ -28,6 +28,36 @@ EXPLANATION = (
 )
 
 
+def check_kahn(ctx: Ctx, oid: str):
+    """Kahn's algorithm bookkeeping: shared with C12 (the Rust kernel counts every edge occurrence; so must Python)."""
+    ts = ctx.func("scc", "topological_sort")
+    cfg = cfg_of(ts.node)
+    gv = GuardView(cfg)
+    dec = [n for n in own_nodes(ts.node) if isinstance(n, ast.AugAssign) and isinstance(n.op, ast.Sub) and ast.unparse(n.target).startswith("in_degree[")]
+    ctx.require(len(dec) == 1, "in-degree decrement not found in topological_sort")
+    w = ast.unparse(dec[0].target.slice)
+    blk = _enclosing_block(ts.node, dec[0])
+    i = blk.index(dec[0])
+    nxt = blk[i + 1] if i + 1 < len(blk) else None
+    ok = isinstance(nxt, ast.If) and ast.unparse(nxt.test) in (f"in_degree[{w}] == 0", f"0 == in_degree[{w}]") and ast.unparse(nxt.body[0]) == f"queue.append({w})"
+    ctx.ob(oid, "R16 PAIRED-EFFECTS", ts, "in-degree decrement is followed by enqueue-at-zero of the same node", ok, "", node=dec[0])
+    inc = [n for n in own_nodes(ts.node) if isinstance(n, ast.AugAssign) and isinstance(n.op, ast.Add) and ast.unparse(n.target).startswith("in_degree[")]
+    ok = len(inc) == 1
+    if ok:
+        b2 = _enclosing_block(ts.node, inc[0])
+        ok = any(ast.unparse(x).startswith("adjacency[") and ".append(" in ast.unparse(x) for x in b2)
+    ctx.ob(oid, "R16 PAIRED-EFFECTS", ts, "each stored edge is counted once in the target's in-degree", ok, "", node=ts.node)
+    tt = ast.unparse(ts.node)
+    ctx.ob(oid, "R16 PAIRED-EFFECTS", ts, "queue starts with exactly the zero in-degree nodes; output order is pop order (FIFO)", "deque((v for v in node_list if in_degree[v] == 0))" in tt and "v = queue.popleft()" in tt and "result.append(v)" in tt, "", node=ts.node)
+    for s in result_sites(ts):
+        at = gv.guard_atoms(s.node)
+        if "INFEASIBLE" in s.statuses:
+            ctx.ob(oid, "R1 STATUS-GUARD", ts, "INFEASIBLE iff fewer nodes were output than exist", atom_of("len(result) != len(node_list)") in at, f"{sorted(at)}", node=s.call)
+        else:
+            ctx.ob(oid, "R1 STATUS-GUARD", ts, "an order is published only when every node was output", atom_of("len(result) == len(node_list)") in at and ast.unparse(s.arg("solution")) == "result", f"{sorted(at)}", node=s.call)
+
+
+
 def run(ctx: Ctx):
     fs = {q: ctx.func("scc", q) for q in ("strongly_connected_components", "topological_sort", "condense")}
     n_loops = 0
@@ -81,31 +111,7 @@ def run(ctx: Ctx):
         ctx.ob("C14-O2", "R5 PAIRING", top, "published solution is the component list, objective its length", ast.unparse(s.arg("solution")) == "components" and ast.unparse(s.arg("objective")) == "len(components)", "", node=s.call)
 
     # O3 Kahn
-    ts = fs["topological_sort"]
-    cfg = cfg_of(ts.node)
-    gv = GuardView(cfg)
-    dec = [n for n in own_nodes(ts.node) if isinstance(n, ast.AugAssign) and isinstance(n.op, ast.Sub) and ast.unparse(n.target).startswith("in_degree[")]
-    ctx.require(len(dec) == 1, "in-degree decrement not found in topological_sort")
-    w = ast.unparse(dec[0].target.slice)
-    blk = _enclosing_block(ts.node, dec[0])
-    i = blk.index(dec[0])
-    nxt = blk[i + 1] if i + 1 < len(blk) else None
-    ok = isinstance(nxt, ast.If) and ast.unparse(nxt.test) in (f"in_degree[{w}] == 0", f"0 == in_degree[{w}]") and ast.unparse(nxt.body[0]) == f"queue.append({w})"
-    ctx.ob("C14-O3", "R16 PAIRED-EFFECTS", ts, "in-degree decrement is followed by enqueue-at-zero of the same node", ok, "", node=dec[0])
-    inc = [n for n in own_nodes(ts.node) if isinstance(n, ast.AugAssign) and isinstance(n.op, ast.Add) and ast.unparse(n.target).startswith("in_degree[")]
-    ok = len(inc) == 1
-    if ok:
-        b2 = _enclosing_block(ts.node, inc[0])
-        ok = any(ast.unparse(x).startswith("adjacency[") and ".append(" in ast.unparse(x) for x in b2)
-    ctx.ob("C14-O3", "R16 PAIRED-EFFECTS", ts, "each stored edge is counted once in the target's in-degree", ok, "", node=ts.node)
-    tt = ast.unparse(ts.node)
-    ctx.ob("C14-O3", "R16 PAIRED-EFFECTS", ts, "queue starts with exactly the zero in-degree nodes; output order is pop order (FIFO)", "deque((v for v in node_list if in_degree[v] == 0))" in tt and "v = queue.popleft()" in tt and "result.append(v)" in tt, "", node=ts.node)
-    for s in result_sites(ts):
-        at = gv.guard_atoms(s.node)
-        if "INFEASIBLE" in s.statuses:
-            ctx.ob("C14-O3", "R1 STATUS-GUARD", ts, "INFEASIBLE iff fewer nodes were output than exist", atom_of("len(result) != len(node_list)") in at, f"{sorted(at)}", node=s.call)
-        else:
-            ctx.ob("C14-O3", "R1 STATUS-GUARD", ts, "an order is published only when every node was output", atom_of("len(result) == len(node_list)") in at and ast.unparse(s.arg("solution")) == "result", f"{sorted(at)}", node=s.call)
+    check_kahn(ctx, "C14-O3")
 
     # O4 condense
     cd = fs["condense"]
@@ -184,6 +190,12 @@ def _v_condense_fast_path(tree):
     M.replace_stmt(g, lambda s: isinstance(s, ast.AnnAssign) and M.src_has(s.target, "node_to_component"), lambda s: M.stmts("if len(components) == len(node_list):\n    ns = set(node_list)\n    return Result(([frozenset([v]) for v in node_list], {frozenset([v]): [frozenset([w]) for w in dict.fromkeys(neighbors(v)) if w in ns] for v in node_list}), len(node_list), scc_result.iterations, len(node_list))") + [s])
 
 
+def _v_topo_successor_sets(tree):
+    g = M.find_func(tree, "topological_sort")
+    M.replace_expr(g, lambda e: M.src_is(e, "adjacency[v].append(w)"), M.expr("adjacency[v].add(w)"))
+    M.replace_expr(g, lambda e: M.src_is(e, "{v: [] for v in node_list}"), M.expr("{v: set() for v in node_list}"))
+
+
 def _t_reformat(tree):
     pass
 
@@ -198,5 +210,6 @@ VARIANTS = [
     M.Variant("topological_sort INFEASIBLE only when nothing was output", SC, _v_kahn_verdict, "C14-O3"),
     M.Variant("condensation keeps intra-component edges", SC, _v_condense_self_edges, "C14-O4"),
     M.Variant("condense fast path for all-singleton components keeps self loops (seed C14-D)", SC, _v_condense_fast_path, "C14-O4"),
+    M.Variant("topological_sort keeps successor sets but counts every edge occurrence (seed C12-D)", SC, _v_topo_successor_sets, "C14-O3"),
     M.Variant("twin: reformat", SC, _t_reformat, None),
 ]
